@@ -566,10 +566,21 @@ func RunMicro(spec MicroSpec) vx.Out {
 		x.checkStuck("after window")
 		x.pauseProbe()
 	}
+	x.fanoutProbe()
 	x.checkDeletedFiles()
 	x.drain()
 	x.oracle()
 	x.checkEphemeralGone()
+	for _, hz := range vrt.TakeHazards() {
+		x.bad("C07 "+hz, "%s", hz)
+	}
+	for id, body := range x.delivBody {
+		switch body {
+		case "m1", "m2", "m3", "mP", "mQ":
+		default:
+			x.bad("C07 body not delivered byte-for-byte", "message %s was delivered with body %q; published bodies: m1 m2 m3 mP mQ", id, body)
+		}
+	}
 	obs += " | deliv=" + x.delivSummary()
 	if len(x.anomalies) > 0 {
 		obs += " | ANOMALY " + strings.Join(x.anomalies, ",")
@@ -676,6 +687,46 @@ func (x *microCtx) pauseProbe() {
 			x.bad("C03 paused channel or topic delivered a message published after the pause", "channel paused=%v topic paused=%v at an idle point; a message published afterwards was delivered to %v", c.IsPaused(), t.IsPaused(), x.delivTo[id])
 		}
 	}
+	for id, as := range x.deliv {
+		x.postWin[id] = len(as)
+	}
+}
+
+// fanoutProbe (C01): at the idle point after the window, a message published now is
+// handed to EVERY channel the topic has now (created before or inside the window) - the
+// topic pump's idea of its channels must not be stale.
+func (x *microCtx) fanoutProbe() {
+	t := x.w.Topic(x.topic)
+	if t == nil || t.Exiting() || t.IsPaused() {
+		return
+	}
+	before := map[string]uint64{}
+	for name, c := range t.channelMap {
+		if !c.Exiting() {
+			before[name] = c.messageCount
+		}
+	}
+	if len(before) == 0 {
+		return
+	}
+	if code, _ := x.w.Do("POST", "/pub?topic="+x.topic, b("mQ")); code != 200 {
+		return
+	}
+	x.w.Quiesce()
+	for name, n := range before {
+		c := t.channelMap[name]
+		if c == nil || c.Exiting() {
+			continue
+		}
+		if c.messageCount != n+1 {
+			x.bad("C01 message published after a channel was created did not reach that channel", "channel %s of topic %s exists and is not paused/exiting at an idle point, a publish was acknowledged then, and the channel's message_count went %d -> %d (channels of the topic: %d)", name, x.topic, n, c.messageCount, len(t.channelMap))
+		}
+	}
+	if x.held >= 0 {
+		x.held++
+	}
+	x.w.Sleep(300 * time.Millisecond)
+	x.note()
 	for id, as := range x.deliv {
 		x.postWin[id] = len(as)
 	}
